@@ -814,6 +814,7 @@ def monOp0 (m : Mon) (op : String) (args : List String) (impl : List String) (tr
     | _, _ => (m, "bad-op")
   | "vcert", _ => (m, vcertSpec args trToks impl)
   | "tlsconn", _ => (m, tlsconnSpec args trToks impl)
+  | "tlsdial", _ => (m, tlsdialSpec args trToks impl)
   | "dnsqx", _ => (m, if (impl.any fun t => (t.splitOn "5555555555555555").length > 1) then "bad C07:dns-record-built-from-uninitialised-memory" else "ok")
   | "idle", [] =>
     -- all clients are gone and every timer has run: only the servers' own status probes (slot 0) may be alive
